@@ -300,6 +300,29 @@ def pdom_sched(ctx, prog, R="C14.PDOM-sched"):
         if not src:
             ctx.missing(R, "ExpertNode::make_stale call")
         sched_after(ctx, R, prog, F, "make_stale", src, excuse={"ExpertNode::make_stale": 0})
+        # the staleness mark itself depends only on validity and kind: a make_stale on a node that is currently
+        # unnecessary (or already queued) must still be remembered for when it becomes necessary again
+        du = DefUse(F)
+        c = F.cfg()
+        for bb in src:
+            bad = []
+            for sb, _can in c.controlling_switches(bb):
+                e = expr(F, F.blocks[sb]["term"]["on"], du)
+                while e[0] in ("un", "discr"):
+                    e = e[2] if e[0] == "un" else e[1]
+                txt = show(e)
+                if e[0] == "call" and (e[1].endswith("is_valid") or e[1].endswith("::kind")):
+                    continue
+                if "kind(" in txt and "is_necessary" not in txt and "is_in_recompute_heap" not in txt:
+                    continue
+                bad.append(txt)
+            ctx.site(R, F, "bb%d ExpertNode::make_stale controlled by %s" % (bb, bad or "validity/kind only"))
+            if bad:
+                ctx.fail(R, "make_stale:unconditional", "the force_stale mark in expert_make_stale is only set when %s: "
+                         "make_stale on a node that is not necessary right now is forgotten, and the node keeps its old "
+                         "value when it is observed again" % " and ".join(bad)[:300], fn=F)
+            else:
+                ctx.ok(R, "make_stale:unconditional")
     MS = ctx.need_fn(R, q.EXPERT + "make_stale")
     if MS is not None:
         ws = _const_sets(prog, MS, "incremental::kind::expert::ExpertNode.force_stale")
